@@ -228,6 +228,13 @@ def check(ctx):
         for nm in names[:5] or ["?"]:
             ctx.violation("code generated for a pest-valid grammar does not compile (%s)" % nm,
                           {"grammar": texts_by.get(nm, "?"), "rustc": msg[-3000:]}, found_input=bool(texts_by.get(nm)))
+    # "for every grammar pest accepts it emits code that compiles", under box_only_if_needed: the emitted struct types are
+    # finite iff every reference cycle passes through a Box (evaluated on the flags the real generator emits)
+    try:
+        from .. import boxing
+        boxing.check_boxing(ctx, ctx.tier)
+    except ImportError:
+        pass
     ctx.rule = ("verdict parity: %d deliberately ill-formed grammars (direct / indirect left recursion through optionals, predicates, "
                 "silent rules, PUSH; non-failing and non-progressing repetition bodies; unreachable alternatives; non-progressing skip "
                 "rules; syntax errors) + seeded single-token mutations of valid grammars + seeded random grammars: "
